@@ -296,6 +296,19 @@ feature('class-keywords',
 feature('class-decorator',
         ['@_dec({R1:$X})', 'class K:', '    pass'],
         ['@_dec({R1})', 'class K:', '    pass'], c02=True, c03=True)
+# a decorated class / function as the FIRST statement of a block whose header binds the name the decorator reads
+feature('param-read-by-decorator-of-leading-class',
+        ['def g({B1:$X@g/param}):', '    @_dec({R1:$X@g})', '    class K:', '        pass', '    return K', 'g(0)'],
+        ['def g($X):', '    $X__s = {d1}', '    @_dec({R1})', '    class K:', '        pass', '    return K', 'g(0)'], c02=True, c03=True)
+feature('param-read-by-decorator-of-leading-def',
+        ['def g({B1:$X@g/param}):', '    @_dec({R1:$X@g})', '    def h():', '        pass', '    return h', 'g(0)'],
+        ['def g($X):', '    $X__s = {d1}', '    @_dec({R1})', '    def h():', '        pass', '    return h', 'g(0)'], c02=True, c03=True)
+feature('except-name-read-by-decorator-of-leading-class',
+        ['try:', '    _r()', 'except E_ as {B1:$X/except-name}:', '    @_dec({R1:$X})', '    class K:', '        pass'],
+        ['try:', '    _r()', 'except E_ as $X:', '    $X__s = {d1}', '    @_dec({R1})', '    class K:', '        pass'], binds='$X', c02=False, c03=False)
+feature('except-name-read-by-decorator-of-leading-def',
+        ['try:', '    _r()', 'except E_ as {B1:$X/except-name}:', '    @_dec({R1:$X})', '    async def h():', '        pass'],
+        ['try:', '    _r()', 'except E_ as $X:', '    $X__s = {d1}', '    @_dec({R1})', '    async def h():', '        pass'], binds='$X', c02=False, c03=False)
 feature('class-body',
         ['class K:', '    {R1:$X@K}', '    {B1:$X@K/class-assign} = 0', '    {R2:$X@K}', '    {R3:$Y@K}', '{R4:$X}'],
         ['class K:', '    {R1}', '    $X = 0; $X__s = {d1}', '    {R2}', '    {R3}', '{R4}'], c02=True, c03=False)
